@@ -10,6 +10,9 @@ data-flow roles; not the digit arithmetic itself).
       parameter's chain count; the checksum subtracts each digit from 2^w-1 over u = 8n/w digits
       and is shifted by the parameter's ls
   T4  the two sibling digit functions compute the same index / shift / mask expressions
+  T5  interval analysis per (n, w, p) row of the digit functions with i in 0..p-1: no lossy narrowing while locating a
+      digit; the byte index reaches n+1 (a smaller upper bound proves that the low checksum byte is never signed)
+  T6  interval analysis of the checksum-appending routine per hash size: checksum bytes are stored at positions n, n+1
 """
 from . import core, expr, flow, ia, paramtable as pt
 from .api import Api
@@ -108,6 +111,103 @@ def table_rules(chk, F, A, an, tag):
         extra = [c for c in dec if c != "otherwise" and c not in pt.LMOTS_TYPE_W]
         chk.ob("T1.decoder-no-extra-codes", kind + tag, not extra, "decoder %s accepts unknown type codes %s" % (df.path, extra), where=df.loc())
     return table
+
+
+def reach_rules(chk, F, A, an, table, tag):
+    """T5 / T6 - interval analysis per (hash, row):
+    T5  the digit functions, analysed with i in 0..p-1 and the row's w, (a) contain no narrowing conversion that can
+        lose value, and (b) reach the byte of the last digit: the byte index has an upper bound of at least (p*w-1)/8 (interval
+        analysis over-approximates, so a smaller bound *proves* that checksum bytes are never read by any digit)
+    T6  the checksum-appending routine, analysed with an n-byte digest, writes checksum-dependent bytes exactly at
+        positions n and n+1 of the buffer whose digits are signed (growth positions of a vector / start of a slice write)
+    """
+    from .paramtable import bind_assoc
+    coef, helper = find_digit_fns(F)
+    tr = pt.hash_trait(F)
+    ck = [f for f in F.fns.values() if f.j.get("impl") and f.j["impl"]["self_ty"].get("path", "").endswith("LmotsParameter")
+          and [t["s"] for t in f.j.get("inputs", [])][1:] == ["&[u8]"] and f.j.get("output", {}).get("s") == "u16"]
+    apps = [f for f in F.fns.values() if ck and any(ck[0].path in F.call_targets(f, t) for _, t in f.calls())]
+    seen_rows = set()
+    for (name, n, t), (w, p, ls) in sorted(table.items()):
+        if (n, w, p) in seen_rows:
+            continue
+        seen_rows.add((n, w, p))
+        key = "n=%d:w=%d%s" % (n, w, tag)
+        for df in [coef] + ([helper] if helper is not None else []):
+            with bind_assoc(an, {tr + "::OUTPUT_SIZE": (n, n)}):
+                an.obs, an.lossy_obs = {}, {}
+                if df is coef:
+                    an.call_local(df.path, [None, (0, p - 1), (w, w)], {(1, ("#len",)): (n + 2, n + 2)})
+                else:
+                    r = an.call_local(df.path, [(0, p - 1), (w, w)])
+                lossy = {k: v for k, v in an.lossy_obs.items() if k[0] in (coef.path, helper.path if helper else "")}
+                chk.ob("T5.digit-position-computed-without-loss", "%s:%s" % (df.key, key), not lossy,
+                       "for n=%d, w=%d the digit function %s converts a value that does not fit (%s) while locating digit i in 0..%d: digits with a large index "
+                       "would be read from the wrong byte, so part of the checksum is never signed" % (n, w, df.path, ["%s %s -> %s" % (k[1], v[0], k[2]) for k, v in lossy.items()][:2], p - 1),
+                       where=df.loc())
+                if df is coef:
+                    bounds = [v for k, vs in an.obs.items() if k[0] == "bounds" and k[1] in (coef.path, helper.path if helper else "") for v in vs]
+                    hi = max((b[0][1] for b in bounds if b[0] is not None), default=None)
+                else:
+                    iv = r.get(("0",))
+                    hi = iv[1] if iv else None
+                last_byte = (p * w - 1) // 8  # byte holding the last of the p digits (RFC 8554 coef)
+                chk.ob("T5.digits-reach-the-last-checksum-byte", "%s:%s" % (df.key, key), hi is not None and hi >= last_byte,
+                       "for n=%d, w=%d, p=%d the byte index computed by %s is at most %s for every digit i < p: byte %d (holding the last checksum digits) is never read, "
+                       "so checksum bits are not signed and a forged digest can dominate the signed one" % (n, w, p, df.path, hi, last_byte), where=df.loc())
+                chk.count("digit_reach_rows", 1)
+    # T6 per hash size
+    if len(apps) != 1:
+        chk.ob("T6.appender-found", "appender" + tag, False, "checksum-appending routine not unique: %s" % [f.path for f in apps])
+        return
+    ap = apps[0]
+    ckp = ck[0].path
+    sl = core.Slice(ap)
+    for n in sorted({k[1] for k in table}):
+        with bind_assoc(an, {tr + "::OUTPUT_SIZE": (n, n)}):
+            an.obs = {}
+            an.memo = {}
+            an.call_local(ap.path, [None, None], {(2, ("#len",)): (n, n)})
+            writes = []  # (lo, hi) positions of checksum-dependent bytes
+            unknown = []
+            for b, t in ap.calls():
+                if ap.blocks[b]["cleanup"]:
+                    continue
+                cp = core.strip_generics(core.callee_path(t) or "")
+                last = cp.rsplit("::", 1)[-1]
+                if last in ("extend_from_slice", "push") and "ArrayVec" in cp:
+                    d = core.operand_deps(ap, t["args"][1])
+                    if any(F.call_targets(ap, ct) == [ckp] for cb, ct in d["calls"]):
+                        for cur, add in an.obs.get(("grow", ap.path, b), []):
+                            if cur is None or add is None or cur[0] != cur[1] or add[0] != add[1]:
+                                unknown.append("growth at unknown position %s+%s" % (cur, add))
+                            else:
+                                writes.append((cur[0], cur[0] + add[0]))
+                elif last in ("copy_from_slice", "clone_from_slice"):
+                    d = core.operand_deps(ap, t["args"][1])
+                    if any(F.call_targets(ap, ct) == [ckp] for cb, ct in d["calls"]):
+                        # destination: result of an index_mut with a range
+                        o = flow.origin(ap, t["args"][0])
+                        got = False
+                        if o[0] == "call":
+                            for kind, s_, e, base in an.obs.get(("range", ap.path, o[1]), []):
+                                src_len = an.len_of_operand(ap, None, t["args"][1]) if False else None
+                                if s_ is not None and s_[0] == s_[1]:
+                                    end = e[0] if (e is not None and e[0] == e[1]) else (base[0] if base and base[0] == base[1] else None)
+                                    if kind == "from" and base is not None and base[0] == base[1]:
+                                        end = base[0]
+                                    if end is not None:
+                                        writes.append((s_[0], end))
+                                        got = True
+                        if not got:
+                            unknown.append("slice write at an unevaluated position")
+            cover = sorted(writes)
+            okc = not unknown and bool(cover) and min(a for a, b in cover) == n and max(b for a, b in cover) == n + 2
+            chk.ob("T6.checksum-stored-right-after-the-digest", "n=%d%s" % (n, tag), okc,
+                   "for an n=%d byte digest %s stores the checksum bytes at buffer positions %s%s instead of %d..%d: the digits taken after the digest "
+                   "would not be the checksum's (all checksum digits constant => no domination protection)" % (n, ap.path, cover, (" (%s)" % unknown[0]) if unknown else "", n, n + 2),
+                   where=ap.loc())
+            chk.count("checksum_positions_checked", 1)
 
 
 def dep_exprs(ex, e):
@@ -311,9 +411,12 @@ def run(chk, ctx):
         an = ia.Analyzer(F)
         chk.configs.append(name)
         tag = "" if name == "default" else "[%s]" % name
-        table_rules(chk, F, A, an, tag)
+        table = table_rules(chk, F, A, an, tag)
         role_rules(chk, F, A, tag)
+        reach_rules(chk, F, A, ia.Analyzer(F), table, tag)
     chk.floor("lmots_rows", 24)
     chk.floor("hash_impls", 6)
     chk.floor("chain_iteration_sites", 3)
     chk.floor("decoder_codes", 8)
+    chk.floor("digit_reach_rows", 12)
+    chk.floor("checksum_positions_checked", 3)
